@@ -14,7 +14,7 @@
 (*          named by the EntryInfo it points to (an EntryInfo has at most    *)
 (*          one node per deque); front = oldest                              *)
 (*   rch    read channel:  [hit, k, i, ts]                                   *)
-(*   wch    write channel: [t ("U" upsert / "R" remove), k, i, ow, nw]       *)
+(*   wch    write channel: [t ("U" upsert / "R" remove), k, i, ow, nw, n]    *)
 (*   ec,ws  published entry_count / weighted_size                            *)
 (*   va     valid_after (None until invalidate_all)                          *)
 (*   hk     clock reading of the last housekeeping attempt (sync_after-500ms)*)
@@ -36,8 +36,10 @@ CONSTANTS NKeys, MaxInfo,
 Keys == 1..NKeys
 InfoIds == 1..MaxInfo
 
-NoEntry == [p |-> FALSE, v |-> 0, i |-> 0]
-NoInfo == [k |-> 0, adm |-> FALSE, dirty |-> FALSE, la |-> None, lm |-> None, w |-> 0]
+\* n: which version of the entry this is (stands for the identity of the ValueEntry);
+\* ver: the version most recently written under this EntryInfo
+NoEntry == [p |-> FALSE, v |-> 0, i |-> 0, n |-> 0]
+NoInfo == [k |-> 0, adm |-> FALSE, dirty |-> FALSE, la |-> None, lm |-> None, w |-> 0, ver |-> 0]
 
 SInit(cfg) ==
     [cfg |-> cfg, map |-> [k \in Keys |-> NoEntry], info |-> [i \in InfoIds |-> NoInfo],
@@ -110,13 +112,17 @@ HandleRemove(s, c, i) ==
            THEN Crash([s EXCEPT !.ao = Without(s.ao, i), !.wo = Without(s.wo, i)], "node pointers dropped while linked (leak)")
            ELSE s, c>>
 
+\* remove whatever the map holds under key k (cache.remove(key))
+MapRemove(s, k) == [s EXCEPT !.map[k] = NoEntry]
+
 \* handle_admit
 HandleAdmit(s0, c, i, nw) ==
     LET s == IF InSeq(s0.ao, i) \/ InSeq(s0.wo, i)
              THEN Crash(s0, "second deque node for one EntryInfo (leak)") ELSE s0 IN
     <<[s EXCEPT !.ao = Append(Without(s.ao, i), i),
                 !.wo = IF HasTtl(s) THEN Append(Without(s.wo, i), i) ELSE s.wo,
-                !.info[i].adm = TRUE],
+                !.info[i].adm = TRUE,
+                !.info[i].w = IF "F9" \in Dev THEN @ ELSE nw],
       <<c[1] + 1, c[2] + nw>>>>
 
 -----------------------------------------------------------------------------
@@ -130,12 +136,81 @@ ApplyRead(s, r) ==
          IN IF s2.info[r.i].adm THEN MoveBackAo(s2, r.i) ELSE s2
 
 -----------------------------------------------------------------------------
+(* Maintenance: expiry and eviction scans                                    *)
+
+\* try_skip_updated_entry on the probation deque (front node has key k)
+\* (F12 repaired: a node whose key has left the map, its removal still being queued, is
+\* released at once through its EntryInfo; the queued removal then finds nothing to do)
+TrySkip(s, c, k) ==
+    IF s.map[k].p
+    THEN IF s.info[s.map[k].i].dirty
+         THEN <<MoveBackWo(MoveBackAo(s, s.map[k].i), s.map[k].i), TRUE, c>>
+         ELSE <<s, FALSE, c>>
+    ELSE IF "F12" \in Dev
+         THEN <<EmitMx([s EXCEPT !.ao = FrontToBack(s.ao)], [t |-> "skip.absent", k |-> k]), TRUE, c>>
+    ELSE LET r == HandleRemove(EmitMx(s, [t |-> "release.absent", k |-> k]), c, Head(s.ao))
+         IN <<r[1], TRUE, r[2]>>
+
+RECURSIVE RmExpWo(_, _, _)
+RmExpWo(s, c, n) ==
+    IF n = 0 \/ s.wo = <<>> THEN <<s, c>>
+    ELSE LET j == Head(s.wo)
+             k == s.info[j].k
+         IN IF ~ExpWoI(s, s.info[j]) THEN <<s, c>>
+            ELSE IF s.map[k].p /\ ExpWoI(s, s.info[s.map[k].i])
+            THEN LET m == s.map[k].i
+                     r == HandleRemove(EmitMx(MapRemove(s, k), [t |-> "expire.wo", k |-> k]), c, m)
+                 IN RmExpWo(r[1], r[2], n - 1)
+            ELSE IF s.map[k].p
+            THEN IF s.info[s.map[k].i].dirty
+                 THEN RmExpWo(MoveBackWo(MoveBackAo(s, s.map[k].i), s.map[k].i), c, n - 1)
+                 ELSE <<s, c>>
+            ELSE IF "F12" \in Dev
+                 THEN RmExpWo(EmitMx([s EXCEPT !.wo = FrontToBack(s.wo)], [t |-> "skip.absent", k |-> k]), c, n - 1)
+            ELSE LET r == HandleRemove(EmitMx(s, [t |-> "release.absent", k |-> k]), c, j)
+                 IN RmExpWo(r[1], r[2], n - 1)
+
+\* the test used by the access-order purge scan
+ExpAoScan(s, x) == ExpAoI(s, x) \/ ("F7" \notin Dev /\ s.va # None /\ x.lm # None /\ x.lm < s.va)
+
+RECURSIVE RmExpAo(_, _, _)
+RmExpAo(s, c, n) ==
+    IF n = 0 \/ s.ao = <<>> THEN <<s, c>>
+    ELSE LET j == Head(s.ao)
+             k == s.info[j].k
+         IN IF ~ExpAoScan(s, s.info[j]) THEN <<s, c>>
+            ELSE IF s.map[k].p /\ ExpAoScan(s, s.info[s.map[k].i])
+            THEN LET m == s.map[k].i
+                     r == HandleRemove(EmitMx(MapRemove(s, k), [t |-> "expire.ao", k |-> k]), c, m)
+                 IN RmExpAo(r[1], r[2], n - 1)
+            ELSE LET t == TrySkip(s, c, k)
+                 IN IF t[2] THEN RmExpAo(t[1], t[3], n - 1) ELSE <<s, c>>
+
+EvictExpired(s, c) ==
+    LET r1 == IF HasTtl(s) THEN RmExpWo(s, c, SBatch) ELSE <<s, c>>
+    IN IF s.cfg.tti # None \/ s.va # None THEN RmExpAo(r1[1], r1[2], SBatch) ELSE r1
+
+RECURSIVE RmLru(_, _, _, _, _)
+RmLru(s, c, n, need, evicted) ==
+    IF n = 0 \/ evicted >= need \/ s.ao = <<>> THEN <<s, c>>
+    ELSE LET j == Head(s.ao)
+             k == s.info[j].k
+         IN IF s.info[j].dirty \/ s.info[j].lm = None
+            THEN LET t == TrySkip(s, c, k)
+                 IN IF t[2] THEN RmLru(t[1], t[3], n - 1, need, evicted) ELSE <<s, c>>
+            ELSE IF s.map[k].p /\ s.info[s.map[k].i].lm = s.info[j].lm
+            THEN LET m == s.map[k].i
+                     w == s.info[m].w
+                     r == HandleRemove(EmitMx(MapRemove(s, k), [t |-> "evict", k |-> k]), c, m)
+                 IN RmLru(r[1], r[2], n - 1, need, evicted + w)
+            ELSE LET t == TrySkip(s, c, k)
+                 IN IF t[2] THEN RmLru(t[1], t[3], n - 1, need, evicted) ELSE <<s, c>>
+
+-----------------------------------------------------------------------------
 (* Maintenance: applying one write record                                    *)
 
 FitsC(s, c, nw) == s.cfg.cap = None \/ c[2] + nw <= s.cfg.cap
 
-\* remove whatever the map holds under key k (cache.remove(key)); returns the info removed or 0
-MapRemove(s, k) == [s EXCEPT !.map[k] = NoEntry]
 
 \* admit(): walk the access-order deque from the front.
 \* returns [n: nodes looked at, vics, skipped: sequences of nodes, vw, vf]
@@ -173,87 +248,47 @@ SkippedToBack(s, skipped) ==
          THEN Crash(s, "use of a freed deque node (skipped)")
          ELSE SkippedToBack(MoveBackAo(s, Head(skipped)), Tail(skipped))
 
-HandleUpsert(s0, c, r) ==
-    LET s == [s0 EXCEPT !.info[r.i].dirty = FALSE]
+HandleUpsert(s0, c0, r) ==
+    LET sA == [s0 EXCEPT !.info[r.i].dirty = FALSE]
         i == r.i
+        \* F10 repaired: room held by expired or invalidated entries is reclaimed before a
+        \* candidate that does not fit is judged
+        pg == IF "F10" \notin Dev /\ ~sA.info[i].adm /\ ~FitsC(sA, c0, r.nw)
+                 /\ (HasExpiry(sA) \/ sA.va # None)
+              THEN EvictExpired(sA, c0) ELSE <<sA, c0>>
+        s == pg[1]
+        c == pg[2]
+        \* is the map's entry the very ValueEntry this record carries?
+        current == s.map[r.k].p /\ s.map[r.k].i = i /\ s.map[r.k].n = r.n
+        RemoveOwn(st) == IF "F5" \in Dev \/ current THEN MapRemove(st, r.k) ELSE st
     IN IF s.info[i].adm
-       THEN <<EmitMx(MoveBackWo(MoveBackAo(s, i), i), [t |-> "upsert.update", k |-> r.k]),
-              <<c[1], SatSub(c[2], r.ow) + r.nw>>>>
+       THEN IF "F9" \in Dev
+            THEN <<EmitMx(MoveBackWo(MoveBackAo(s, i), i), [t |-> "upsert.update", k |-> r.k]),
+                   <<c[1], SatSub(c[2], r.ow) + r.nw>>>>
+            ELSE <<EmitMx(MoveBackWo(MoveBackAo([s EXCEPT !.info[i].w = r.nw], i), i),
+                          [t |-> "upsert.update", k |-> r.k]),
+                   <<c[1], SatSub(c[2], s.info[i].w) + r.nw>>>>
+       ELSE IF "F5" \notin Dev /\ ~(s.map[r.k].p /\ s.map[r.k].i = i)
+       THEN \* the entry left the map before it was admitted: nothing to do
+            <<EmitMx(s, [t |-> "upsert.stale", k |-> r.k]), c>>
        ELSE IF FitsC(s, c, r.nw)
        THEN HandleAdmit(EmitMx(s, [t |-> "upsert.fit", k |-> r.k]), c, i, r.nw)
        ELSE IF r.nw > s.cfg.cap
-       THEN <<EmitMx(MapRemove(s, r.k), [t |-> "upsert.oversize", k |-> r.k]), c>>
+       THEN <<EmitMx(RemoveOwn(s), [t |-> "upsert.oversize", k |-> r.k]), c>>
        ELSE LET a == AdmitWalk(s, r.nw, Freq(s, r.k), 1, <<>>, <<>>, 0, 0, 0)
             IN IF a.vw >= r.nw /\ Freq(s, r.k) > a.vf
                THEN LET rv == RemoveVictims(EmitMx(s, [t |-> "upsert.admit", k |-> r.k]), c, a.vics, a.skipped)
                         ad == HandleAdmit(rv[1], rv[2], i, r.nw)
+                        Wit(st, sk) == IF sk = <<>> THEN st ELSE EmitMx(st, [t |-> "admit.skipped", k |-> -1])
                     IN IF rv[1].crash # "" THEN <<rv[1], rv[2]>>
-                       ELSE <<SkippedToBack(ad[1], rv[3]), ad[2]>>
-               ELSE <<SkippedToBack(EmitMx(MapRemove(s, r.k), [t |-> "upsert.reject", k |-> r.k]), a.skipped), c>>
+                       ELSE <<SkippedToBack(Wit(ad[1], rv[3]), rv[3]), ad[2]>>
+               ELSE <<SkippedToBack(IF a.skipped = <<>> THEN EmitMx(RemoveOwn(s), [t |-> "upsert.reject", k |-> r.k])
+                                    ELSE EmitMx(EmitMx(RemoveOwn(s), [t |-> "upsert.reject", k |-> r.k]),
+                                                [t |-> "admit.skipped", k |-> -1]), a.skipped), c>>
 
 ApplyWrite(s, c, r) ==
     IF r.t = "U" THEN HandleUpsert(s, c, r)
     ELSE HandleRemove(EmitMx(s, [t |-> "remove", k |-> r.k]), c, r.i)
-
------------------------------------------------------------------------------
-(* Maintenance: expiry and eviction scans                                    *)
-
-\* try_skip_updated_entry on the probation deque (front node has key k)
-TrySkip(s, k) ==
-    IF s.map[k].p
-    THEN IF s.info[s.map[k].i].dirty
-         THEN <<MoveBackWo(MoveBackAo(s, s.map[k].i), s.map[k].i), TRUE>>
-         ELSE <<s, FALSE>>
-    ELSE <<[s EXCEPT !.ao = FrontToBack(s.ao)], TRUE>>
-
-RECURSIVE RmExpWo(_, _, _)
-RmExpWo(s, c, n) ==
-    IF n = 0 \/ s.wo = <<>> THEN <<s, c>>
-    ELSE LET j == Head(s.wo)
-             k == s.info[j].k
-         IN IF ~ExpWoI(s, s.info[j]) THEN <<s, c>>
-            ELSE IF s.map[k].p /\ ExpWoI(s, s.info[s.map[k].i])
-            THEN LET m == s.map[k].i
-                     r == HandleRemove(EmitMx(MapRemove(s, k), [t |-> "expire.wo", k |-> k]), c, m)
-                 IN RmExpWo(r[1], r[2], n - 1)
-            ELSE IF s.map[k].p
-            THEN IF s.info[s.map[k].i].dirty
-                 THEN RmExpWo(MoveBackWo(MoveBackAo(s, s.map[k].i), s.map[k].i), c, n - 1)
-                 ELSE <<s, c>>
-            ELSE RmExpWo([s EXCEPT !.wo = FrontToBack(s.wo)], c, n - 1)
-
-RECURSIVE RmExpAo(_, _, _)
-RmExpAo(s, c, n) ==
-    IF n = 0 \/ s.ao = <<>> THEN <<s, c>>
-    ELSE LET j == Head(s.ao)
-             k == s.info[j].k
-         IN IF ~ExpAoI(s, s.info[j]) THEN <<s, c>>
-            ELSE IF s.map[k].p /\ ExpAoI(s, s.info[s.map[k].i])
-            THEN LET m == s.map[k].i
-                     r == HandleRemove(EmitMx(MapRemove(s, k), [t |-> "expire.ao", k |-> k]), c, m)
-                 IN RmExpAo(r[1], r[2], n - 1)
-            ELSE LET t == TrySkip(s, k)
-                 IN IF t[2] THEN RmExpAo(t[1], c, n - 1) ELSE <<s, c>>
-
-EvictExpired(s, c) ==
-    LET r1 == IF HasTtl(s) THEN RmExpWo(s, c, SBatch) ELSE <<s, c>>
-    IN IF s.cfg.tti # None \/ s.va # None THEN RmExpAo(r1[1], r1[2], SBatch) ELSE r1
-
-RECURSIVE RmLru(_, _, _, _, _)
-RmLru(s, c, n, need, evicted) ==
-    IF n = 0 \/ evicted >= need \/ s.ao = <<>> THEN <<s, c>>
-    ELSE LET j == Head(s.ao)
-             k == s.info[j].k
-         IN IF s.info[j].dirty \/ s.info[j].lm = None
-            THEN LET t == TrySkip(s, k)
-                 IN IF t[2] THEN RmLru(t[1], c, n - 1, need, evicted) ELSE <<s, c>>
-            ELSE IF s.map[k].p /\ s.info[s.map[k].i].lm = s.info[j].lm
-            THEN LET m == s.map[k].i
-                     w == s.info[m].w
-                     r == HandleRemove(EmitMx(MapRemove(s, k), [t |-> "evict", k |-> k]), c, m)
-                 IN RmLru(r[1], r[2], n - 1, need, evicted + w)
-            ELSE LET t == TrySkip(s, k)
-                 IN IF t[2] THEN RmLru(t[1], c, n - 1, need, evicted) ELSE <<s, c>>
 
 -----------------------------------------------------------------------------
 (* Inner::sync                                                               *)
@@ -314,15 +349,17 @@ Insert(s0, k, v, w0) ==
     IN IF s.map[k].p
        THEN LET i == s.map[k].i
                 ow == s.info[i].w
-                s1 == [s EXCEPT !.map[k].v = v,
-                                !.info[i] = [@ EXCEPT !.dirty = TRUE, !.la = s.now, !.lm = s.now, !.w = w]]
-            IN SendWrite(s1, [t |-> "U", k |-> k, i |-> i, ow |-> ow, nw |-> w], 3)
+                n == s.info[i].ver + 1
+                s1 == [s EXCEPT !.map[k].v = v, !.map[k].n = n,
+                                !.info[i] = [@ EXCEPT !.dirty = TRUE, !.la = s.now, !.lm = s.now, !.ver = n,
+                                                      !.w = IF "F9" \in Dev THEN w ELSE @]]
+            IN SendWrite(s1, [t |-> "U", k |-> k, i |-> i, ow |-> ow, nw |-> w, n |-> n], 3)
        ELSE LET i == FreshInfo(s)
             IN IF i = 0 THEN Crash(s, "MODEL: out of info ids")
-               ELSE LET s1 == [s EXCEPT !.map[k] = [p |-> TRUE, v |-> v, i |-> i],
+               ELSE LET s1 == [s EXCEPT !.map[k] = [p |-> TRUE, v |-> v, i |-> i, n |-> 1],
                                         !.info[i] = [k |-> k, adm |-> FALSE, dirty |-> TRUE,
-                                                     la |-> s.now, lm |-> s.now, w |-> w]]
-                    IN SendWrite(s1, [t |-> "U", k |-> k, i |-> i, ow |-> 0, nw |-> w], 3)
+                                                     la |-> s.now, lm |-> s.now, w |-> w, ver |-> 1]]
+                    IN SendWrite(s1, [t |-> "U", k |-> k, i |-> i, ow |-> 0, nw |-> w, n |-> 1], 3)
 
 \* get: <<state, result>>
 Get(s0, k) ==
@@ -339,7 +376,7 @@ Contains(s, k) == <<[s EXCEPT !.aged = FALSE, !.mx = <<>>], Visible(s, k)>>
 Invalidate(s0, k) ==
     LET s == [s0 EXCEPT !.aged = FALSE, !.mx = <<>>]
     IN IF ~s.map[k].p THEN s
-       ELSE SendWrite(MapRemove(s, k), [t |-> "R", k |-> k, i |-> s.map[k].i, ow |-> 0, nw |-> 0], 3)
+       ELSE SendWrite(MapRemove(s, k), [t |-> "R", k |-> k, i |-> s.map[k].i, ow |-> 0, nw |-> 0, n |-> 0], 3)
 
 InvalidateAll(s) == [s EXCEPT !.va = s.now, !.aged = FALSE, !.mx = <<>>]
 
@@ -359,14 +396,18 @@ ResOf(s) == LET ks == SortedSeq({k \in Keys : s.map[k].p})
                   [k |-> ks[j], v |-> s.map[ks[j]].v, w |-> x.w, la |-> x.la, lm |-> x.lm,
                    adm |-> x.adm, dirty |-> x.dirty]]
 
-NLive(s) == Cardinality(Referenced(s))
+NLive(s) == Cardinality({k \in Keys : s.map[k].p})
+            + Cardinality(Referenced(s) \ {s.map[k].i : k \in {k2 \in Keys : s.map[k2].p}})
 
 SSnap(s) == [res |-> ResOf(s),
              ao |-> [j \in DOMAIN s.ao |-> s.info[s.ao[j]].k],
              wo |-> [j \in DOMAIN s.wo |-> s.info[s.wo[j]].k],
              ec |-> s.ec, ws |-> s.ws,
              fq |-> [k \in Keys |-> Freq(s, k)], sk |-> [on |-> s.son, aged |-> s.aged],
-             va |-> s.va, rlen |-> Len(s.rch), wlen |-> Len(s.wch), it |-> IterItems(s), dd |-> 0]
+             va |-> s.va, rlen |-> Len(s.rch), wlen |-> Len(s.wch), it |-> IterItems(s), dd |-> 0,
+             \* key / value objects alive: one per resident, plus one per EntryInfo that is
+             \* referenced (by a node or a queued record) without being in the map
+             lk |-> NLive(s), lv |-> NLive(s)]
 
 \* One API call: o is [op, k, v, w, d]
 SDo(st, o) ==
@@ -394,7 +435,12 @@ SDo(st, o) ==
 SEventOf(r) == r.ev @@ [snap |-> SSnap(r.s), mx |-> r.s.mx]
 
 \* Garbage (EntryInfos nobody references) and the per-call event log are not state.
-Canon(s) == [s EXCEPT !.info = [i \in InfoIds |-> IF i \in Referenced(s) THEN s.info[i] ELSE NoInfo],
+PendingU(s, i) == \E j \in DOMAIN s.wch : s.wch[j].t = "U" /\ s.wch[j].i = i
+Canon(s) == [s EXCEPT !.info = [i \in InfoIds |-> IF i \notin Referenced(s) THEN NoInfo
+                                                  ELSE IF PendingU(s, i) THEN s.info[i]
+                                                  ELSE [s.info[i] EXCEPT !.ver = 0]],
+                      !.map = [k \in Keys |-> IF s.map[k].p /\ ~PendingU(s, s.map[k].i)
+                                              THEN [s.map[k] EXCEPT !.n = 0] ELSE s.map[k]],
                       !.mx = <<>>]
 
 =============================================================================
